@@ -2,7 +2,7 @@
     Model: Model/Cleanup.v ([cleanup d repos now shardMerging] = cmd/zoekt-sourcegraph-indexserver/cleanup.go
     after the repair `fix: indexserver cleanup: tombstone unassigned repos in compound shards even when
     they also have simple shards`).  Proofs: Proofs/CleanupProofs.v. *)
-From ZV Require Import Lib.Base Model.Cleanup Proofs.CleanupProofs.
+From ZV Require Import Lib.Base Model.Cleanup Proofs.CleanupProofs Proofs.CleanupUnassigned.
 Open Scope Z_scope.
 
 (** assigned_kept.  For every well-formed index directory, every assigned set, every time and both
@@ -39,6 +39,15 @@ Theorem C32_assigned_kept_before_fix_refuted :
 Proof. exact assigned_kept_before_fix_refuted. Qed.
 Print Assumptions C32_assigned_kept_before_fix_refuted.
 
+(** unassigned_not_searchable_after: for every well-formed directory, every assigned set and both settings
+    of shardMerging, no repository outside the assigned set is alive in any index shard after cleanup
+    (it was trashed, tombstoned, or deleted; nothing revived it). *)
+Theorem C32_unassigned_not_searchable_after : forall d repos now sm id,
+  wf d -> wf_trash d -> ~ In id repos ->
+  forall g e, In g (d_index (cleanup d repos now sm)) -> In e (alive_entries g) -> e_id e <> id.
+Proof. intros d repos now sm id H1 H2 H3. exact (unassigned_not_alive_after d repos now sm id H1 H2 H3). Qed.
+Print Assumptions C32_unassigned_not_searchable_after.
+
 Theorem C32_tmp_files_removed : forall d repos now sm, d_tmps (cleanup d repos now sm) = 0%nat.
 Proof. exact tmp_removed. Qed.
 Print Assumptions C32_tmp_files_removed.
@@ -65,6 +74,13 @@ Proof.
   - simpl. intros t f e Ht Hf Hb He.
     repeat (destruct Ht as [<-|Ht]; [repeat (destruct Hf as [<-|Hf]; [try discriminate|]); try contradiction|]); try contradiction.
     simpl in He. destruct He as [<-|[]]. vm_compute. left. reflexivity.
+Qed.
+
+Example ex_big_wf_trash : wf_trash ex_big.
+Proof.
+  constructor.
+  - simpl. repeat constructor; simpl; intuition discriminate.
+  - simpl. intros t e e' Ht. repeat (destruct Ht as [<-|Ht]; [simpl; intuition congruence|]). contradiction.
 Qed.
 
 (* the result: 1 kept (simple), 2 trashed, 3 purged, compound shard kept with 4 alive, 5 tombstoned, 6 revived;
